@@ -21,6 +21,11 @@ class PathLimit(BaseException):
     """Unwinding / path budget exhausted on this path."""
 
 
+class UnwindBound(PathLimit):
+    """a loop over a symbolic trip count wanted one more iteration than the stated unwinding bound
+    (unwinding assertion): the path is handed to the harness as kind "unwind", not counted as covered."""
+
+
 class Stats:
     def __init__(self):
         self.queries = 0
@@ -263,6 +268,8 @@ def explore(run, *, max_paths=4000, ctx_kwargs=None, on_path=None):
                 p = Path(ctx, "ret", v)
             except Unsupported as e:
                 p = Path(ctx, "unsupported", e)
+            except UnwindBound as e:
+                p = Path(ctx, "unwind", e)
             except PathLimit as e:
                 p = Path(ctx, "limit", e)
             except Exception as e:  # exception raised by the code under test
